@@ -14,9 +14,14 @@
 //   name tokens   x,y | a,b | z  ->  req,db|count,bytes|zzz   Http,Rpc|Dur,Size|Q9   a,b|x1,y2|z
 //                                     req,prereq|cnt,cnt2|zz (one name a substring of another)
 //   name          <<p,s>> -> p SEP s, SEP in "_" "/" "-"        (no regex metacharacter)
-//   selectors     exact n -> the name; prefix p -> "p.*"; suffix s -> ".*s"; all -> "*"
-//   units         "" -> "", ms,By -> ms,By | s,{packets} | 1,kBy/s | k,kBy
+//                                     r,d|c,e|q  H,k|N,m|w (one character per token, no separator: always
+//                                     used for "rx" selectors; tokens "." and "_" are themselves)
+//   selectors     exact n -> the name; prefix p -> "p.*"; suffix s -> ".*s"; all -> "*"; rx tree -> ECMAScript
+//                 text with the operator as the only syntax: rc|dc  re|qq  r|rcc  rcc?  rc+  rc*  r[ce]  r.c  r\.c
+//                 ^rc$  rc{2}
+//   units         "" -> "", ms,By -> ms,By | s,{packets} | 1,kBy/s | k,kBy | m|s,m | m.s,mxs
 //   meters        A=(libA,1.0.0,S) B=(libA,2.0.0,S) C=(libC,1.0.0,"")  S="https://example.test/schema/1"
+//                 or A=(a|c,1.0,S) B=(a|c,1x0,S) C=(a,1.0,"")
 //   view k        name "view<k>_out", description "view <k> description", unit argument "VIEWUNIT" (must
 //                 never show), aggregation enum, filter: none->default processor, k1->{"k1"}, empty->{}
 //   attribute keys k1->"k1", k2->"k2", k1v->the view "k1" of the block "k1zz", k1n->the 5 bytes k1<NUL>zz
@@ -36,27 +41,95 @@ struct Table
 {
   std::map<std::string, std::string> tok, unit;
   std::string sep;
-  explicit Table(Rng &rng)
+  int meters = 0;  // which meter table (see kMeters)
+  // `chars`: one character per token and no separator, so that a regular-expression tree renders
+  // with its operator as the ONLY syntax of the pattern text ("rc|dc", "rcc?", "r[ce]", "r\\.c", ...)
+  Table(Rng &rng, bool chars)
   {
     // (variant 3 makes one name a substring of another and one unit a prefix of the other: a
     // selector that searches instead of matching, or compares prefixes, is then visible)
-    static const char *toks[4][5]  = {{"req", "db", "count", "bytes", "zzz"}, {"Http", "Rpc", "Dur", "Size", "Q9"},
-                                      {"a", "b", "x1", "y2", "z"}, {"req", "prereq", "cnt", "cnt2", "zz"}};
-    static const char *units[4][2] = {{"ms", "By"}, {"s", "{packets}"}, {"1", "kBy/s"}, {"k", "kBy"}};
+    static const char *toks[6][5]  = {{"req", "db", "count", "bytes", "zzz"}, {"Http", "Rpc", "Dur", "Size", "Q9"},
+                                      {"a", "b", "x1", "y2", "z"},            {"req", "prereq", "cnt", "cnt2", "zz"},
+                                      {"r", "d", "c", "e", "q"},              {"H", "k", "N", "m", "w"}};
+    // units with regex syntax characters: the unit selector is compared literally ("m|s" is not "m")
+    static const char *units[6][2] = {{"ms", "By"}, {"s", "{packets}"}, {"1", "kBy/s"}, {"k", "kBy"}, {"m|s", "m"}, {"m.s", "mxs"}};
     static const char *seps[3]     = {"_", "/", "-"};
-    int v                          = static_cast<int>(rng.below(4));
+    int v                          = chars ? 4 + static_cast<int>(rng.below(2)) : static_cast<int>(rng.below(6));
     tok["x"]                       = toks[v][0];
     tok["y"]                       = toks[v][1];
     tok["a"]                       = toks[v][2];
     tok["b"]                       = toks[v][3];
     tok["z"]                       = toks[v][4];
-    int u                          = static_cast<int>(rng.below(4));
+    tok["."]                       = ".";
+    tok["_"]                       = "_";
+    int u                          = static_cast<int>(rng.below(6));
     unit[""]                       = "";
     unit["ms"]                     = units[u][0];
     unit["By"]                     = units[u][1];
-    sep                            = seps[rng.below(3)];
+    sep                            = v >= 4 ? "" : seps[rng.below(3)];
+    meters                         = static_cast<int>(rng.below(2));
   }
-  std::string name(const json &n) const { return tok.at(n[0]) + sep + tok.at(n[1]); }
+  std::string name(const json &n) const
+  {
+    std::string out;
+    for (size_t i = 0; i < n.size(); ++i)
+      out += (i ? sep : "") + tok.at(n[i]);
+    return out;
+  }
+  // a regular-expression tree (spec/Views.tla, Lang) as ECMAScript text; a group (?:..) is added only
+  // where a multi-character operand needs one (never for the one-operator patterns of RxPats)
+  std::string rx(const json &t, bool operand = false) const
+  {
+    std::string k = t[0];
+    std::string out;
+    bool atom = true;
+    if (k == "tok")
+    {
+      out  = tok.at(t[1]);
+      atom = out.size() == 1;
+      if (out == ".")
+        out = "\\.";
+    }
+    else if (k == "any")
+      out = ".";
+    else if (k == "escdot")
+      out = "\\.";
+    else if (k == "cls")
+    {
+      out = "[";
+      for (auto &c : t[1])
+        out += tok.at(c);
+      out += "]";
+    }
+    else if (k == "seq")
+    {
+      for (auto &c : t[1])
+        out += c[0] == "alt" ? "(?:" + rx(c) + ")" : rx(c);
+      atom = false;
+    }
+    else if (k == "alt")
+    {
+      out  = rx(t[1]) + "|" + rx(t[2]);
+      atom = false;
+    }
+    else if (k == "anch")
+      return "^" + rx(t[1]) + "$";
+    else
+    {
+      std::string in = rx(t[1], true);
+      if (k == "opt")
+        out = in + "?";
+      else if (k == "plus")
+        out = in + "+";
+      else if (k == "star")
+        out = in + "*";
+      else
+        out = in + "{" + std::to_string(t[2].get<int>()) + "}";
+    }
+    if (operand && !atom)
+      return "(?:" + out + ")";
+    return out;
+  }
   std::string pattern(const json &p) const
   {
     std::string k = p["k"];
@@ -64,6 +137,8 @@ struct Table
       return "*";
     if (k == "exact")
       return name(p["s"]);
+    if (k == "rx")
+      return rx(p["s"][1]);
     if (k == "prefix")
       return tok.at(p["s"][0]) + ".*";
     return ".*" + tok.at(p["s"][0]);
@@ -74,17 +149,23 @@ struct MeterId
 {
   const char *id, *name, *version, *schema;
 };
-const MeterId kMeters[3] = {{"A", "libA", "1.0.0", kSchema}, {"B", "libA", "2.0.0", kSchema}, {"C", "libC", "1.0.0", ""}};
-const MeterId &meter_of(const std::string &id)
+// table 1: names and versions with regex syntax characters - the meter selector is compared literally
+// ("a|c" is not "a", "1.0" is not "1x0")
+const MeterId kMeters[2][3] = {{{"A", "libA", "1.0.0", kSchema}, {"B", "libA", "2.0.0", kSchema}, {"C", "libC", "1.0.0", ""}},
+                               {{"A", "a|c", "1.0", kSchema}, {"B", "a|c", "1x0", kSchema}, {"C", "a", "1.0", ""}}};
+const MeterId &meter_of(const std::string &id, int table)
 {
-  for (auto &m : kMeters)
+  for (auto &m : kMeters[table])
     if (id == m.id)
       return m;
   std::cerr << "unknown meter " << id << "\n";
   exit(3);
 }
-std::string sel_name(const std::string &n) { return n == "m1" ? "libA" : n == "m2" ? "libC" : ""; }
-std::string sel_version(const std::string &v) { return v == "1.0" ? "1.0.0" : v == "2.0" ? "2.0.0" : ""; }
+std::string sel_name(const std::string &n, int t) { return n == "m1" ? kMeters[t][0].name : n == "m2" ? kMeters[t][2].name : ""; }
+std::string sel_version(const std::string &v, int t)
+{
+  return v == "1.0" ? kMeters[t][0].version : v == "2.0" ? kMeters[t][1].version : "";
+}
 std::string sel_schema(const std::string &s) { return s == "s1" ? kSchema : s == "s2" ? "https://example.test/schema/2" : ""; }
 
 sdkm::InstrumentType sdk_type(const std::string &t)
@@ -174,7 +255,7 @@ void add_views(sdkm::MeterProvider &mp, const json &views, const Table &t)
     mp.AddView(std::unique_ptr<sdkm::InstrumentSelector>(
                    new sdkm::InstrumentSelector(sdk_type(v["type"]), t.pattern(v["pat"]), t.unit.at(v["unit"]))),
                std::unique_ptr<sdkm::MeterSelector>(new sdkm::MeterSelector(
-                   sel_name(v["msel"]["name"]), sel_version(v["msel"]["version"]), sel_schema(v["msel"]["schema"]))),
+                   sel_name(v["msel"]["name"], t.meters), sel_version(v["msel"]["version"], t.meters), sel_schema(v["msel"]["schema"]))),
                std::unique_ptr<sdkm::View>(new sdkm::View(vname.empty() ? "" : view_name(k), vdesc.empty() ? "" : view_desc(k),
                                                           "VIEWUNIT", sdk_agg(v["agg"]), nullptr, std::move(proc))));
   }
@@ -195,7 +276,7 @@ void run_group(const json &views, const json &insts, const std::vector<size_t> &
   for (size_t j : idx)
   {
     const json &i    = insts[j];
-    const MeterId &m = meter_of(i["meter"]);
+    const MeterId &m = meter_of(i["meter"], t.meters);
     if (!meters.count(m.id))
       meters[m.id] = mp.GetMeter(m.name, m.version, m.schema);
     std::unique_ptr<Inst> inst(new Inst());
@@ -282,7 +363,7 @@ void run_group(const json &views, const json &insts, const std::vector<size_t> &
     s["kind"]  = kind;
     s["keys"]  = ks;
     s["meter"] = "?" + c.scope_name;
-    for (auto &m : kMeters)
+    for (auto &m : kMeters[t.meters])
       if (c.scope_name == m.name && c.scope_version == m.version && c.scope_schema == m.schema)
         s["meter"] = m.id;
     res[j].push_back(s);
@@ -306,7 +387,13 @@ int run_views(std::istream &in, uint64_t seed, int instances)
     for (int k = 0; k < instances; ++k)
     {
       Rng rng(mix(seed, static_cast<uint64_t>(id), static_cast<uint64_t>(k)));
-      Table t(rng);
+      // regular-expression selectors and names that are not token pairs need one character per token
+      bool chars = false;
+      for (auto &v : views)
+        chars = chars || v["pat"]["k"] == "rx";
+      for (auto &i : insts)
+        chars = chars || i["name"].size() != 2;
+      Table t(rng, chars);
       // pack the instruments into providers with unique (meter, name)
       std::vector<std::vector<size_t>> groups;
       std::vector<std::map<std::string, bool>> used;
